@@ -9,7 +9,7 @@ CONSTANTS
   IDPAIRS <- c_IDPAIRS
   STAKERS = {"s1", "s2", "s3"}
   PREC = 100
-  DEVIATIONS = {"L11"}
+  DEVIATIONS = {}
   EXTRAS = {0, 1, 2}
   TAXES = {0, 2}
   REWARDS = {0, 5}
